@@ -71,6 +71,7 @@ func (s *state) cloneModel(doc *document.Document, idx int) *state {
 		fnEver: s.fnEver, enEver: s.enEver, notesOff: s.notesOff, listsOff: s.listsOff,
 		tocPresent: s.tocPresent, tocSDT: s.tocSDT, tocM: s.tocM, tocStale: s.tocStale, tocOff: s.tocOff, tocBad: s.tocBad,
 		contentOff: s.contentOff,
+		fnSpecial:  append([]string{}, s.fnSpecial...), enSpecial: append([]string{}, s.enSpecial...),
 	}
 	n.fnInherited, n.enInherited = keys(s.fn), keys(s.en)
 	// notes the source had from its file are notes from a file in the rendered document too
